@@ -1,5 +1,6 @@
 import WS.Model.Handshake
 import WS.Proofs.Negotiation
+import WS.Props.Handshake
 /-
   C14 — permessage-deflate is negotiated soundly and both ends agree on its parameters.
   Statements about the model of selectDeflate / acceptDeflate / compressionOptions.String /
